@@ -38,11 +38,13 @@ RULE = ("a case = (constructor, alphabet, pattern / pattern set in live iteratio
         "arguments)")
 ASSUMPTIONS = [
     "symbols are single characters; alphabets are Python sets (no repeated symbol)",
-    "lengths / positions are ints; min_length ≥ 0 (a negative min_length with a max_length makes the "
-    "constructor raise InvalidStateError: outside the domain 'lengths are naturals')",
+    "lengths / positions are ints; of_length: every (min_length, max_length, symbols_to_count) is in the "
+    "domain — the one class on which the constructor raises (negative min_length with a max_length ≥ 0 "
+    "and a counted symbol in Σ: InvalidStateError) is stated as theorem C15_of_length_negative_min and "
+    "checked as an announced error",
     "count_mod remainders ⊆ range(k) (others raise InvalidStateError: outside the domain)",
-    "minimality is claimed only for non-empty patterns over the alphabet, |Σ| ≥ 2, non-degenerate "
-    "numeric parameters (min ≤ max, at least one counted symbol in Σ), as the property states",
+    "minimality is claimed only for non-empty patterns over the alphabet, |Σ| ≥ 2, as the property "
+    "states; of_length: for ALL numeric parameters and alphabets (C15_of_length_minimal has no hypothesis)",
 ]
 EXPLANATION = ("Theorems C15_* state, for every alphabet / pattern / parameter, that the model's constructor "
                "returns a valid DFA accepting exactly the words over Σ that satisfy the predicate (or its "
@@ -308,8 +310,12 @@ def expected_error(case: dict) -> Optional[str]:
             return "ValueError"
         if case["symbol"] not in sy:
             return "InvalidSymbolError"
-    if c == "of_length" and case["max"] is not None and case["min"] < 0 and case["max"] >= case["min"]:
-        return "InvalidStateError"  # outside the domain (negative length)
+    if c == "of_length":
+        # C15_of_length_negative_min: the only raising inputs — a negative min_length with a
+        # non-negative max_length and a counted symbol in Σ (final_states would contain negatives)
+        cnt = sy if case.get("count") is None else set(case["count"])
+        if case["max"] is not None and case["min"] < 0 <= case["max"] and (cnt & sy):
+            return "InvalidStateError"
     return None
 
 
@@ -322,15 +328,14 @@ def minimality_in_domain(case: dict) -> bool:
     sy = set(case["syms"])
     if c in ("universal_language", "empty_language"):
         return True
+    if c == "of_length":
+        # C15_of_length_minimal has no hypothesis (since fix bcfb456 the degenerate parameters —
+        # empty range, nothing counted — return the one-state automaton): every returned DFA
+        return True
     if len(sy) < 2:
         return False
     if c in ("from_prefix", "from_suffix", "from_substring", "from_subsequence"):
         return len(case["pattern"]) >= 1 and set(case["pattern"]) <= sy
-    if c == "of_length":
-        cnt = sy if case.get("count") is None else set(case["count"])
-        if not (cnt & sy) or case["min"] < 0:
-            return False
-        return case["max"] is None or case["min"] <= case["max"]  # F15: degenerate parameters
     if c in ("nth_from_start", "nth_from_end"):
         return case["n"] >= 1 and case["symbol"] in sy
     if c == "from_finite_language":
@@ -609,9 +614,20 @@ CORPUS: List[dict] = [
     # F20 (fixed e721303): end_state collision (pattern with a symbol outside the alphabet)
     dict(ctor="from_substrings", syms="ab", patterns=["cc", "ab"], ordered=True, contains=True, must_be_suffix=False),
     dict(ctor="from_substrings", syms="ab", patterns=["bbc", "aac"], ordered=True, contains=True, must_be_suffix=False),
-    # F15 (outside the minimality claim): degenerate of_length parameters
+    # F15 (fixed bcfb456): degenerate of_length parameters (empty range / nothing counted) were not minimal
     dict(ctor="of_length", syms="a", min=3, max=1, count=None),
+    dict(ctor="of_length", syms="ab", min=2, max=3, count="c"),
     dict(ctor="of_length", syms="ab", min=1, max=2, count=""),
+    dict(ctor="of_length", syms="ab", min=0, max=2, count="c"),
+    dict(ctor="of_length", syms="ab", min=0, max=None, count=""),
+    dict(ctor="of_length", syms="ab", min=2, max=None, count="#"),
+    dict(ctor="of_length", syms="ab", min=0, max=-1, count=None),
+    dict(ctor="of_length", syms="ab", min=-2, max=-1, count="a"),
+    dict(ctor="of_length", syms="ab", min=-1, max=None, count="a"),
+    dict(ctor="of_length", syms="ab", min=-1, max=1, count="a"),      # the one raising class
+    dict(ctor="of_length", syms="ab", min=-1, max=1, count="c"),      # … not when nothing is counted
+    dict(ctor="of_length", syms="", min=0, max=None, count=None),
+    dict(ctor="of_length", syms="", min=1, max=None, count=None),
     # killers of the mutants of notes/C15.md
     dict(ctor="from_suffix", syms="ab", pattern="a", contains=True),                       # KMP limit
     dict(ctor="from_suffix", syms="ab", pattern="aba", contains=False),
@@ -652,8 +668,8 @@ def pattern_cases(syms: str, p: str):
 
 def numeric_cases(syms: str, hi: int):
     counts = [None, "", syms[0], syms, syms[-1] + "#"]
-    for mn in range(0, hi + 1):
-        for mx in [None] + list(range(0, hi + 1)):
+    for mn in range(-2, hi + 1):
+        for mx in [None] + list(range(-1 if mn <= 1 else 0, hi + 1)):
             for cnt in counts:
                 yield dict(ctor="of_length", syms=syms, min=mn, max=mx, count=cnt)
     for k in range(-1, hi + 1):
@@ -828,7 +844,7 @@ def run(ctx: Ctx):
         r = rng.random()
         cnt = rng.choice([None, None, syms[0], syms[-1], syms[:2], ""])
         if r < 0.3:
-            mn = rng.randint(0, 9)
+            mn = rng.randint(0, 9) if rng.random() < 0.9 else rng.randint(-3, -1)
             mx = rng.choice([None, rng.randint(0, 9), mn, mn + 1, mn - 1])
             case = dict(ctor="of_length", syms=syms, min=mn, max=mx, count=cnt)
         elif r < 0.6:
